@@ -27,6 +27,14 @@ CLAIMS = {
          "cross-checked against explicit derivation enumeration + brute-force summation at start-up. Sampled, bounded sizes; no proof.",
          "Trusted: vf/oracle_fgg.py NumEval (self-checked against O6), numpy, Hypothesis; tolerances rtol 1e-9/1e-4, inf and zero exact.",
          "DESIGN.md section 5, C01"),
+ 'C02': ("Hypothesis-generated recursive grammar specs vs. independent least-fixed-point references (exact Kleene for Bool/Viterbi; Newton+autograd with a-posteriori contraction bound for Real/Log); warning and ValueError behaviour checked",
+         "Recursive FGGs (self-loops, mutual recursion, linear and non-linear, weight-one cycles, chained SCCs) x semiring x method x (tol,kmax): "
+         "Bool/Viterbi results must equal an exact Kleene reference unless the run warned; Real/Log results of runs that did not warn must lie within "
+         "the derived bound tol/(1-rho) of an independently computed least fixed point (rho = Jacobian inf-norm at the fixed point, <=0.9 by "
+         "deterministic rescaling), runs that warned must stay below it; method='linear' must raise ValueError exactly on non-linear recursion. "
+         "Sampled; bound derived in DESIGN.md, not tuned.",
+         "Trusted: vf/oracle_fgg.py (TorchEval Newton reference verified by residual; NumEval Kleene), torch autograd/linalg, Hypothesis.",
+         "DESIGN.md section 5, C02"),
 }
 
 NOT_YET = {}   # id -> reason (filled while the framework is being built)
